@@ -12,7 +12,11 @@ use std::path::{Path, PathBuf};
 use std::sync::atomic::{AtomicBool, Ordering};
 use std::time::Instant;
 
-pub const VERIF_DIR: &str = "/verif";
+/// Root of the verification tree: the directory of the `check` script that started us (a background
+/// run from a snapshot writes its evidence and replays into the snapshot), /verif by default.
+pub fn verif_dir() -> String {
+    std::env::var("LV_verif_dir()").unwrap_or_else(|_| "/verif".to_string())
+}
 
 /// An oracle failure: a stable signature (what the known-findings matcher keys on)
 /// and a human explanation.
@@ -353,7 +357,7 @@ impl Run {
             case,
         };
         let text = serde_json::to_string_pretty(&rf).unwrap();
-        let dir = PathBuf::from(format!("{}/replays/{}", VERIF_DIR, self.id));
+        let dir = PathBuf::from(format!("{}/replays/{}", verif_dir(), self.id));
         let _ = std::fs::create_dir_all(&dir);
         let path = dir.join(format!("fail-{:016x}.json", fnv64(text.as_bytes())));
         let _ = std::fs::write(&path, text);
@@ -500,7 +504,7 @@ impl Run {
         if self.worker.0 != 0 {
             return;
         }
-        let dir = PathBuf::from(format!("{}/replays/{}", VERIF_DIR, self.id));
+        let dir = PathBuf::from(format!("{}/replays/{}", verif_dir(), self.id));
         let mut files: Vec<PathBuf> = match std::fs::read_dir(&dir) {
             Ok(rd) => rd.filter_map(|e| e.ok().map(|e| e.path())).collect(),
             Err(_) => return,
@@ -532,7 +536,7 @@ impl Run {
 }
 
 pub fn load_known() -> Vec<KnownFinding> {
-    let p = format!("{}/known_findings.json", VERIF_DIR);
+    let p = format!("{}/known_findings.json", verif_dir());
     match std::fs::read_to_string(&p) {
         Ok(t) => serde_json::from_str(&t).unwrap_or_else(|e| {
             eprintln!("[lv] cannot parse {}: {}", p, e);
@@ -582,7 +586,7 @@ pub fn write_evidence(id: &str, tier: Tier, seed: u64, wall_s: f64, st: &Stats, 
         "wall_s": wall_s,
         "violations": st.violations,
     });
-    let dir = format!("{}/evidence", VERIF_DIR);
+    let dir = format!("{}/evidence", verif_dir());
     let _ = std::fs::create_dir_all(&dir);
     let path = format!("{}/{}.json", dir, id);
     std::fs::write(&path, serde_json::to_string_pretty(&ev).unwrap()).expect("write evidence");
